@@ -280,3 +280,6 @@ case("C13", "nearest-by-score", "VIOLATION", [(TT, "idxs = numpy.argsort(_result
 case("C13", "threads-not-restored", "VIOLATION", [(TT, "\tif n_jobs != -1:\n\t\tnumba.set_num_threads(_n_jobs)\n", "\tif n_jobs != -1:\n\t\tnumba.set_num_threads(n_jobs)\n")], "THREADS")
 case("C13", "f-reset-explicit-loops", "HOLDS", [(TT, "\tf[:] = 0\n", "\tfor i in range(f.shape[0]):\n\t\tfor j in range(f.shape[1]):\n\t\t\tf[i, j] = 0\n")])
 case("C13", "A-zero-fill-spelling", "HOLDS", [(TT, "\tn = n_bins*nq + nq*offset\n\tA[:] = 0\n", "\tn = n_bins*nq + nq*offset\n\tA[:, :, :] = 0\n")])
+case("C11", "returns-wrong-offset", "VIOLATION", [(FI, "\treturn smallest, logpdf", "\treturn log_pwm_min_csum, logpdf")], "OFFSET")
+case("C01", "multi-mutates-spacing-list", "VIOLATION", [(E, "\tfor i in range(len(spacing)):\n\t\tX = substitute(X, motifs[i], start=start, alphabet=alphabet)", "\tspacing.append(0)\n\tspacing.pop()\n\tfor i in range(len(spacing)):\n\t\tX = substitute(X, motifs[i], start=start, alphabet=alphabet)")], "R-PURE", "ersatz.multisubstitute")
+case("C07", "register-not-idempotent", "VIOLATION", [(D, "\tif len(module._backward_hooks) > 0:\n\t\treturn\n\tif not isinstance(module, tuple(module._NON_LINEAR_OPS.keys())):", "\tif not isinstance(module, tuple(module._NON_LINEAR_OPS.keys())):")], "HOOK-PAIRING")
